@@ -463,6 +463,89 @@ func (g *c19Gen) message(kind int) (*BMPMessage, string) {
 	}
 }
 
+// CONSTRUCTORS over the cross product of their discriminating arguments: peer type x V flag given
+// or not x address family of the peer address (IPv4, IPv6, IPv4-mapped, zoned link-local, zero
+// Addr) x address family of the Peer Up local address. The message must parse back to the very
+// arguments (zones excepted), or Serialize must refuse.
+func c19CtorCross(o *vOut, dog *c19Dog, g *c19Gen) {
+	addrs := []netip.Addr{netip.MustParseAddr("192.0.2.1"), netip.MustParseAddr("2001:db8::1"), netip.MustParseAddr("::ffff:192.0.2.1"),
+		netip.MustParseAddr("fe80::1%eth0"), netip.MustParseAddr("0.0.0.0"), netip.MustParseAddr("::"), {}}
+	same := func(got, given netip.Addr) bool {
+		given = given.WithZone("")
+		if !given.IsValid() {
+			return !got.IsValid() || got.IsUnspecified()
+		}
+		return got == given
+	}
+	for _, t := range []uint8{BMP_PEER_TYPE_GLOBAL, BMP_PEER_TYPE_L3VPN, BMP_PEER_TYPE_LOCAL, BMP_PEER_TYPE_LOCAL_RIB} {
+		for _, peer := range addrs {
+			if t == BMP_PEER_TYPE_LOCAL_RIB {
+				peer = netip.Addr{} // RFC 9069: no peer address
+			}
+			for _, flags := range []uint8{0, BMP_PEER_FLAG_POST_POLICY, BMP_PEER_FLAG_TWO_AS | BMP_PEER_FLAG_POST_POLICY} {
+				ph := NewBMPPeerHeader(t, flags, g.r.next(), peer, g.r.u32(), netip.MustParseAddr("10.1.1.1"), float64(1700000000))
+				detail := map[string]any{"peer_type": t, "flags": flags, "peer_address": peer.String()}
+				// per-peer header alone (inside a Route Monitoring message)
+				res := dog.run("ctor peer header", nil, func() string {
+					b, err := NewBMPRouteMonitoring(*ph, g.update()).Serialize()
+					if err != nil {
+						return "refused"
+					}
+					m, err := ParseBMPMessage(b)
+					if err != nil {
+						return "perr:" + err.Error()
+					}
+					q := m.PeerHeader
+					if !same(q.PeerAddress, peer) || q.PeerType != t || q.PeerAS != ph.PeerAS || q.PeerDistinguisher != ph.PeerDistinguisher || q.Flags != ph.Flags {
+						detail["parsed_back"] = fmt.Sprintf("%s flags %#x", q.PeerAddress, q.Flags)
+						return "fields"
+					}
+					return "ok"
+				})
+				o.stat("ctor_peer_header_"+strings.SplitN(res, ":", 2)[0], 1)
+				if res != "ok" && res != "refused" {
+					detail["outcome"] = res
+					o.fail("constructor-accepts-value-that-does-not-roundtrip:bmp-peer-header", detail)
+				}
+				// Peer Up: local address of the same / the other family
+				for _, local := range addrs {
+					if t == BMP_PEER_TYPE_LOCAL_RIB {
+						local = netip.Addr{}
+					}
+					pd := map[string]any{"peer_type": t, "peer_address": peer.String(), "local_address": local.String()}
+					res := dog.run("ctor peer up", nil, func() string {
+						b, err := NewBMPPeerUpNotification(*ph, local, 179, 4000, g.open(), g.open()).Serialize()
+						if err != nil {
+							return "refused"
+						}
+						m, err := ParseBMPMessage(b)
+						if err != nil {
+							return "perr:" + err.Error()
+						}
+						up := m.Body.(*BMPPeerUpNotification)
+						if !same(up.LocalAddress, local) || up.LocalPort != 179 || up.RemotePort != 4000 {
+							pd["parsed_back"] = up.LocalAddress.String()
+							return "fields"
+						}
+						return "ok"
+					})
+					o.stat("ctor_peer_up_"+strings.SplitN(res, ":", 2)[0], 1)
+					if res != "ok" && res != "refused" {
+						pd["outcome"] = res
+						o.fail("constructor-accepts-value-that-does-not-roundtrip:bmp-peer-up", pd)
+					}
+					if t == BMP_PEER_TYPE_LOCAL_RIB {
+						break
+					}
+				}
+			}
+			if t == BMP_PEER_TYPE_LOCAL_RIB {
+				break
+			}
+		}
+	}
+}
+
 func TestVerifC19(t *testing.T) {
 	o := vOpen(t)
 	defer o.close()
@@ -613,6 +696,8 @@ func TestVerifC19(t *testing.T) {
 	parse(hx("030000000e0400000004616263"), nil, "corpus")
 	parse(hx("030000000e050001000200010000"), nil, "corpus")
 	parse(hx("030000000d0500010001000000"), nil, "corpus")
+
+	c19CtorCross(o, dog, g)
 
 	var pool [][]byte
 	for i := 0; i < n; i++ {
